@@ -840,6 +840,76 @@ func c08ListLimits(r *run.Run) {
 		})
 }
 
+// the feature list on its own (encoder and reader of the list, through the export seam): a feature table
+// may start below 64 KiB and extend beyond it
+func c08FeatureListLimits(r *run.Run) {
+	window := 5
+	if !r.Quick() {
+		window = 30
+	}
+	lasts := []int{0, 1, 3000, 40000}
+	mk := func(last, n int) gtab.FeatureListInfo {
+		var info gtab.FeatureListInfo
+		for i := 0; i < n; i++ {
+			info = append(info, &gtab.Feature{Tag: fmt.Sprintf("f%03d", i%1000), Lookups: []gtab.LookupIndex{gtab.LookupIndex(i % 7), gtab.LookupIndex(i%7 + 1)}})
+		}
+		if last > 0 {
+			f := &gtab.Feature{Tag: "last"}
+			for i := 0; i < last; i++ {
+				f.Lookups = append(f.Lookups, gtab.LookupIndex(i%500))
+			}
+			info = append(info, f)
+		}
+		return info
+	}
+	roundTrip := func(info gtab.FeatureListInfo) (refused string, back gtab.FeatureListInfo, size int, err error) {
+		var enc []byte
+		if p := guard(func() { enc = gtab.VerifEncodeFeatureList(info) }); p != "" {
+			return p, nil, 0, nil
+		}
+		back, err = gtab.VerifReadFeatureList(enc)
+		return "", back, len(enc), err
+	}
+	firstBad := make([]int, len(lasts))
+	for k, last := range lasts {
+		lo, hi := 1, 12000
+		for lo < hi {
+			mid := (lo + hi) / 2
+			info := mk(last, mid)
+			refused, back, _, err := roundTrip(info)
+			if refused == "" && err == nil && reflect.DeepEqual(info, back) {
+				lo = mid + 1
+			} else {
+				hi = mid
+			}
+		}
+		firstBad[k] = lo
+	}
+	r.Explore(explore.Config{Name: "C08.feature-list-limits", Deadline: r.PartDeadline(0.5)},
+		fmt.Sprintf("the feature list encoder and reader on lists of n two-lookup features, alone or followed by a last feature with 1 / 3000 / 40000 lookup indices, for every n in a window of +-%d around the smallest n that does not round-trip (bisection): the encoder refuses loudly or the list comes back intact (the 16-bit limit applies to where a feature table starts, not to where it ends)", window),
+		func(c *explore.Ctx) {
+			k := c.Choose(len(lasts), "lookups of the last feature")
+			n := firstBad[k] - window + c.Choose(2*window+1, "n relative to the first count that does not round-trip")
+			if n < 1 {
+				c.Skip("no entries")
+			}
+			desc := fmt.Sprintf("%d two-lookup features and a last feature with %d lookups (the first n that does not round-trip is %d)", n, lasts[k], firstBad[k])
+			c.Sample(func() any { return desc })
+			c.Nontrivial()
+			info := mk(lasts[k], n)
+			refused, back, size, err := roundTrip(info)
+			c.Outcome(desc, refused != "", err == nil)
+			switch {
+			case refused != "":
+				c.Tag("refused loudly: " + refused)
+			case err != nil:
+				c.Fail("C08.roundtrip", "feature list limit", "the reader rejects the feature list the encoder wrote (%d bytes): %v; %s", size, err, desc)
+			case !reflect.DeepEqual(info, back):
+				c.Fail("C08.roundtrip", "feature list limit", "the feature list differs after encode / read (%d bytes); %s", size, desc)
+			}
+		})
+}
+
 func c08Sizes(r *run.Run) {
 	maxLookups := 2
 	if !r.Quick() {
@@ -956,6 +1026,7 @@ func init() {
 		c08Lookups(r)
 		c08SubtableLimit(r)
 		c08ListLimits(r)
+		c08FeatureListLimits(r)
 		c08Sizes(r)
 	})
 }
